@@ -45,7 +45,8 @@ pub struct Restr {
     pub cut: Vec<usize>,
     /// 0 = the services are constructed directly; otherwise they are built by the repository's builders from files written
     /// for the purpose: 1 = one entry per model, rows in the listed order; 2 = the vehicle rows spread out (a row of another
-    /// edge that binds no vehicle between any two rows, so that the rows of one edge are not neighbours in the file);
+    /// edge that binds no vehicle between any two rows, so that the rows of one edge are not neighbours in the file) and the
+    /// columns of both files listed in another order under their names;
     /// 3 = vehicle rows and restricted turns split over two entries of the same type inside one combined model
     #[serde(default)]
     pub from_files: u8,
@@ -93,19 +94,29 @@ impl Restr {
         let mut entries: Vec<Value> = vec![];
         // vehicle rows: one file, or two (mode 3)
         let row_text = |rows: &[RawRestriction], spread: bool| -> String {
-            let mut t = String::from("edge_id,restriction_name,restriction_value,restriction_unit\n");
+            // columns are found by their names: layout 2 lists them in another order (unit, value, edge, name)
+            let mut t = String::from(if spread { "restriction_unit,restriction_value,edge_id,restriction_name\n" } else { "edge_id,restriction_name,restriction_value,restriction_unit\n" });
             for (i, r) in rows.iter().enumerate() {
                 if spread && i > 0 && m > 1 {
-                    t.push_str(&format!("{},maximum_height,1000000,meters\n", (r.edge + 1) % m));
+                    t.push_str(&format!("meters,1000000,{},maximum_height\n", (r.edge + 1) % m));
+                }
+                if spread {
+                    t.push_str(&format!("{},{},{},{}\n", r.unit, r.value, r.edge, r.kind));
+                    continue;
                 }
                 t.push_str(&format!("{},{},{},{}\n", r.edge, r.kind, r.value, r.unit));
             }
             t
         };
+        let swapped = self.from_files == 2;
         let turn_text = |pairs: &[(usize, usize)]| -> String {
-            let mut t = String::from("prev_edge_id,next_edge_id\n");
+            let mut t = String::from(if swapped { "next_edge_id,prev_edge_id\n" } else { "prev_edge_id,next_edge_id\n" });
             for (a, b) in pairs {
-                t.push_str(&format!("{},{}\n", a, b));
+                if swapped {
+                    t.push_str(&format!("{},{}\n", b, a));
+                } else {
+                    t.push_str(&format!("{},{}\n", a, b));
+                }
             }
             t
         };
